@@ -147,6 +147,21 @@ async def examine_message(cx, s, uid, seq, info, how, mbox):
             cx.viol(["C16"], "partial-is-not-the-slice", f"{tag}: <{o}.{c}> gave {len(bytes(got[0] or b'')) if got else None} octets, want {len(want)}")
         if key and key[0] != f"BODY[]<{o}>":
             cx.viol(["C07", "C16"], "partial-origin-not-echoed", f"{tag}: {key}")
+    # partials of the sections: slices of what the un-sliced section is (offsets at both ends, sections that are empty included)
+    for sec, whole in (("TEXT", txt), ("HEADER", hdr)):
+        m_ = len(whole)
+        for (o, c) in [(0, 1), (1, rnd.randint(1, 40)), (0, 2), (max(0, m_ - 1), 4), (m_, 2), (rnd.randint(0, m_ + 2), rnd.randint(1, m_ + 5))]:
+            rp, dp = await fetch1(s, f"UID FETCH {uid} (BODY.PEEK[{sec}]<{o}.{c}>)")
+            if dp is None:
+                cx.viol(["C16", "C06"], "partial-fetch-failed", f"{tag}: [{sec}]<{o}.{c}> {rp.brief()}")
+                continue
+            got = [v for k, v in dp.items() if k.startswith(f"BODY[{sec}]")]
+            cx.inc("eq_partial_section")
+            if m_ == 0:
+                cx.inc("eq_partial_of_empty_section")
+            want = whole[o : o + c]
+            if not got or bytes(got[0] or b"") != want:
+                cx.viol(["C16"], "partial-is-not-the-slice", f"{tag}: [{sec}]<{o}.{c}> gave {bytes(got[0] or b'')[:20]!r} ({len(bytes(got[0] or b'')) if got else None} octets), want {want[:20]!r} ({len(want)}) of a section of {m_}")
     # repeatability
     r2, d2 = await fetch1(s, f"UID FETCH {uid} (RFC822.SIZE BODY.PEEK[] BODY.PEEK[HEADER] BODY.PEEK[TEXT] RFC822.HEADER INTERNALDATE FLAGS)")
     cx.inc("eq_repeat")
